@@ -388,7 +388,7 @@ func z9Scenarios(thorough bool) []z9Scenario {
 		{Name: "stall", Op: "pull", Layers: []int{12}, MaxStreams: 2, Faults: []string{"stall"}, Faulty: 1},
 		{Name: "handler-chunked", Op: "pull", Layers: []int{12}, MaxStreams: 2, Handler: true, Faults: []string{"500", "neterr", "truncate", "flip"}, Faulty: 1},
 		{Name: "handler-two-layers", Op: "pull", Layers: []int{3, 12}, Config: 2, MaxStreams: 1, Handler: true, Faults: []string{"500", "neterr"}, Faulty: 1},
-		{Name: "push", Op: "push", Layers: []int{3, 12}, MaxStreams: 2, Faults: []string{"500", "neterr"}},
+		{Name: "push", Op: "push", Layers: []int{3, 12}, MaxStreams: 2, Faults: []string{"500", "neterr", "307"}},
 		{Name: "push-cancel", Op: "push", Layers: []int{3, 12}, MaxStreams: 1, Cancel: true},
 		{Name: "push-cancel-late", Op: "push", Layers: []int{3, 12}, MaxStreams: 1, CancelLate: true, Faults: []string{"500"}},
 		{Name: "chunked-cancel-late", Op: "pull", Layers: []int{12, 3}, MaxStreams: 2, CancelLate: true, Faults: []string{"500", "flip"}, Faulty: 1},
